@@ -72,7 +72,16 @@ public:
 
 	~CCsvWriteObjectScope()
 	{
-		mCsvWriter->NextLine();
+		// Finishing of row can fail (e.g. mismatch of values count, encoding or stream error), but a destructor must not throw:
+		// the error is kept in the context and reported at the end of saving.
+		try
+		{
+			mCsvWriter->NextLine();
+		}
+		catch (...)
+		{
+			GetContext().DeferException(std::current_exception());
+		}
 	}
 
 	/// <summary>
